@@ -39,8 +39,8 @@ __CPROVER_ensures(self == addfrom || (self->gs_pops == 0 && self->gs_decs == 0 &
  *     into the RECEIVER's map, thread_map_count_ +1 after the insertion, queued once in the RECEIVER; none dropped */
 __CPROVER_ensures(vx_exc == 0 ==> (__CPROVER_return_value == (size_t) g_pops && CONVERTED(g_pops) && g_ins_fail == 0 && OWNS(lk) && MAPINV(self)))
 /* (4) a task the map refused is reported by an exception (never dropped silently); it is un-staged (1), everything before it
- *     was converted, the lock is released */
-__CPROVER_ensures(vx_exc != 0 ==> (vx_exc == error_out_of_memory && g_ins_fail == 1 && g_cto == g_pops && g_task_frees == g_pops && g_ins == g_pops - 1 && g_map_incs == g_pops - 1 && g_sched == g_pops - 1 && !lk->owns && !self->mtx_.held))
+ *     was converted */
+__CPROVER_ensures(vx_exc != 0 ==> (vx_exc == error_out_of_memory && g_ins_fail == 1 && g_cto == g_pops && g_task_frees == g_pops && g_ins == g_pops - 1 && g_map_incs == g_pops - 1 && g_sched == g_pops - 1))
 /* (5) the victim: popped at most once; if popped it got one object, one map entry and one queue entry (staged -> pending+map) */
 __CPROVER_ensures(g_v_pops <= 1 && g_v_cto == g_v_pops && g_v_ins == g_v_pops && g_v_sched == g_v_pops && !gv_mine && VP_OK)
 /* (6) at most add_count conversions when a limit is given; none for 0 */
@@ -54,7 +54,7 @@ void harness(void)
   hops_queue_init(&g_q0); hops_queue_init(&g_q1);
   struct tq *self = &g_q0;
   struct tq *from = nondet_bool() ? &g_q0 : &g_q1;
-  G.self = 1; g_from = Q_ID(from);
+  CFG.self = 1; g_from = Q_ID(from);
   /* the victim: staged in the source queue, or anywhere else it may be */
   from->gs_victim = nondet_bool();
   gv_map = nondet_bool(); gv_queued = nondet_bool(); gv_term = nondet_bool(); gv_heap = nondet_bool();
